@@ -117,7 +117,7 @@ package netconf
 //@   ensures RI(d.Channel.Q)
 //@   modifies d.serverCapabilities, d.sessionID, rd, d.Channel.Q.queue, d.Channel.Q.depth, chan(d.Channel.Q.depthChan), quiet, alloc()
 //@ func (*Driver).Open [C08 C09]
-//@   requires RI(d.Channel.Q) && d.Channel.Errs != d.Channel.Q.depthChan && d.errs != d.Channel.Q.depthChan && d.done != d.Channel.Q.depthChan
+//@   requires RI(d.Channel.Q) && d.Channel.PromptSearchDepth >= 0 && d.Channel.Errs != d.Channel.Q.depthChan && d.errs != d.Channel.Q.depthChan && d.done != d.Channel.Q.depthChan
 //@   requires d.messages != nil && d.subscriptions != nil
 //@   ensures #reader-started-only-on-success-with-a-settled-version result == nil ==> (d.SelectedVersion == "1.0" || d.SelectedVersion == "1.1")
 
